@@ -89,6 +89,8 @@ def context_features(w, v):
             f.append("sendto")
         if any(k in text for k in ("\nhostoff", "\nlinkoff", "\nP H ", "\nP K ")):
             f.append("failures")
+        if "\nmigrateother " in text:
+            f.append("migrate-other")
         if "\nexecs " in text:
             f.append("async-exec")
     elif v.key.startswith("TIME_BACKWARDS:late=") and "Variable" in v.key:
@@ -264,6 +266,7 @@ DIRECTED_S4U = [
      "hostoff h0\nhoston h0\nend\n", ["tracing/actor:yes"]),
     ("killed-in-unmatched-put", D_PLAT2 + "script 0 h0 1 0 1.0 0\nput mb 1000.0 - 5.0\nscript 1 h1 1 0 -1 0\nsleep 2\nend\n", ["tracing/actor:yes"]),
     ("async-exec-test-then-wait", D_PLAT2 + "script 0 h0 1 0 -1 0\nexecs 1000000000.0 - 2.0 0.5\nend\n", ["tracing/actor:yes"]),
+    ("migrate-a-sleeping-actor", D_PLAT2 + "script 0 h0 1 0 -1 0\nsleep 2\nscript 1 h1 1 0 -1 0\nsleep 1\nmigrateother 0 h1\nend\n", ["tracing/actor:yes"]),
     # well-formed ones
     ("maestro-exec", D_PLAT2 + "M exec h0 1000000000.0 -\nscript 0 h1 1 0 -1 0\nsleep 2\nend\n", ["tracing/actor:yes"]),
     ("plain-uncat", D_PLAT2 + "script 0 h0 1 0 -1 0\nexec 1000000000.0 -\nput mb 1000000.0 - 5.0\nscript 1 h1 1 0 -1 0\nget mb 5.0\nexec 500000000.0 -\nend\n",
@@ -376,6 +379,8 @@ def oracle_selftest(ctx, r):
 
 
 def run(ctx):
+    if os.environ.get("VERIF_C47_NOKNOWN") == "1":   # development knob: every finding is reported with its replay file
+        ctx._known = []
     r = Runner(ctx)
     try:
         oracle_selftest(ctx, r)
